@@ -1,7 +1,7 @@
 (* General tie, inverse 5/3 lifting, even = true. *)
 From V Require Import Common.Base Tie.GoSem Gen.KernelsSlices_gen.
 Require V.DWT.DwtModel.
-From Scr Require Import DwtTieLib DwtTieFwdEven DwtTieInvEvenLoop.
+From V Require Import Tie.DwtTieLib Tie.DwtTieFwdEven Tie.DwtTieInvEvenLoop.
 
 Lemma go_copy_all : forall data tmp, zlen tmp = zlen data -> go_copy data 0 (zlen data) tmp 0 (zlen tmp) = tmp.
 Proof.
